@@ -45,6 +45,7 @@ SIG_SETUP = "BayesianProblem._solve_max_point"
 SIG_OPT = "BayesianProblem._solve_max_point|optimiser"
 SIG_NONSMOOTH = "BayesianProblem._solve_max_point|nonsmooth-prior:bfgs-finite-differences"
 SIG_ML = "BayesianProblem.ML"
+SIG_CCOV = "Gaussian.compute_cov"
 
 PARAMS = ["cov", "prec", "sqrtcov", "sqrtprec"]
 KINDS = ["scalar", "vector", "matrix", "sparse"]
@@ -283,7 +284,7 @@ def c_gdesc(g, dim, computed=None):
         M = g["val"]
     return ("{| gd_param := %s; gd_kind := %s; gd_s := %s; gd_v := %s; gd_M := %s; gd_computed := %s |}" % (
         cnat(PARAMS.index(g["param"])), cnat(KINDS.index(k)), cq(s), cqvec(v), cqmat(M),
-        "None" if computed is None else "(Some %s)" % cqmat(computed)))
+        "None" if computed is None else ("(Some %s)" % cqmat(computed) if np.all(np.isfinite(np.array(computed, dtype=float))) else "(Some [])")))
 
 
 def c_obs(o):
@@ -342,6 +343,9 @@ def run_map(cuqi, meta):
             kw["disp"] = bool(meta["disp"])
         r = quiet(BP.MAP, **kw)
         obs = [float(v) for v in np.asarray(r).ravel()]
+        if not np.all(np.isfinite(obs)):
+            extras["nonfinite"] = str(obs)
+            obs = "Other:nonfinite"
         extras["wrap_ok"] = bool(isinstance(r, cuqi.array.CUQIarray) and r.geometry is BP.posterior.geometry and r.is_par
                                  and r.info == {"solver": "direct"} and np.asarray(r).shape == (n,))
         if meta.get("history"):
@@ -392,6 +396,8 @@ def map_oracle(cuqi, meta, obs, A_eff, m, n, BP, computed=None):
     """the property on the implementation: a returned point is the posterior mean, a stationary point and no nearby
     point has larger posterior density; a refusal is not a failure"""
     if isinstance(obs, str):
+        if obs == "Other:nonfinite":
+            return "MAP returned non-finite values"
         if obs.startswith("Other"):
             return "MAP raised an unexpected exception kind: %s" % obs
         return None
@@ -487,6 +493,38 @@ def gen_cov(rng, kind, dim, param="cov"):
     return {"param": param, "kind": "sparse" if kind == "sparse" else "matrix", "val": M}
 
 
+FACTORS = ["upper", "lower", "symroot", "general", "signedperm"]
+
+
+def gen_factor(rng, d, shape):
+    """a nonsingular dyadic d x d square-root factor R of the requested shape (precision R^T R / covariance R R^T)"""
+    while True:
+        U = np.triu(np.array([[rng.choice([0, 0.5, -0.5, 1, -1]) for _ in range(d)] for _ in range(d)], dtype=float), 1)
+        U += np.diag([rng.choice([0.5, 1, 2, 1.5]) for _ in range(d)])
+        if shape == "upper":
+            R = U
+        elif shape == "lower":
+            R = U.T
+        elif shape == "symroot":
+            G = np.array([[rng.choice([0, 0, 0.5, -0.5]) for _ in range(d)] for _ in range(d)])
+            R = G + G.T + np.diag([rng.choice([2, 3, 2.5]) for _ in range(d)])
+            if np.min(np.linalg.eigvalsh(R)) <= 0.2:
+                continue
+        elif shape == "general":
+            R = U + np.tril(np.array([[rng.choice([0, 0.5, -0.5, 1]) for _ in range(d)] for _ in range(d)], dtype=float), -1)
+        else:
+            perm = list(range(d))
+            rng.shuffle(perm)
+            Pm = np.zeros((d, d))
+            for i, j in enumerate(perm):
+                Pm[i, j] = rng.choice([1, -1])
+            R = Pm @ U
+        if d > 1 and shape != "upper" and np.allclose(R, np.triu(R)):
+            continue                          # must NOT be upper triangular (that is the class every derived factor is in)
+        if abs(np.linalg.det(R)) > 0.2 and np.linalg.cond(R) < 30:
+            return R.tolist()
+
+
 def well_conditioned(meta, A_eff, m, n):
     try:
         Ce = np.array([[float(v) for v in r] for r in intended_cov(meta["ce"], m)])
@@ -562,6 +600,14 @@ def lattice_map(ctx):
             for i, xs in enumerate(["prior", "other", "zeros", "scalar", "list", "cuqiarray"]):
                 cells.append(dict(m=m, n=n, ke=ke, kx=kx, pe="cov", px="cov", model=["dense", "func", "sparse"][i % 3], geom="default", mean="vec",
                                   x0arg=xs, disp=bool((i + m) % 2)))
+    # 11. user-supplied square-root factors of every shape (stored as given for sqrtprec), noise AND prior, compute_cov() first
+    for par in ("sqrtprec", "sqrtcov"):
+        for fac in FACTORS:
+            for side in ("noise", "prior", "both"):
+                for (m, n) in [(2, 3), (3, 3), (3, 2)]:
+                    cells.append(dict(m=m, n=n, ke="factor" if side != "prior" else "matrix", kx="factor" if side != "noise" else "matrix",
+                                      pe=par if side != "prior" else "cov", px=par if side != "noise" else "cov", fac=fac,
+                                      model="dense", geom="default", mean="vec", cce=side != "prior", ccx=side != "noise"))
     # 6. matrix model + non-identity geometry (finding ..|matrix-model+nonidentity-geometry; step_mat is a refusal)
     for geom in NONID:
         for (m, n) in [(2, 3), (3, 3), (3, 2)]:
@@ -591,8 +637,10 @@ def instantiate(rng, c, op="map"):
         meta["b"] = [dy(rng) for _ in range(m)]
         meta["mean"] = ({"kind": "scalar", "val": dy(rng)} if c["mean"] == "scalar"
                         else {"kind": "vec", "val": [rng.choice([0, 0, dy(rng)]) for _ in range(n)] if rng.random() < 0.7 else [0] * n})
-        meta["ce"] = gen_cov(rng, c["ke"], m, c["pe"])
-        meta["cx"] = gen_cov(rng, c["kx"], n, c["px"])
+        meta["ce"] = ({"param": c["pe"], "kind": "matrix", "val": gen_factor(rng, m, c["fac"]), "factor": c["fac"]} if c["ke"] == "factor"
+                      else gen_cov(rng, c["ke"], m, c["pe"]))
+        meta["cx"] = ({"param": c["px"], "kind": "matrix", "val": gen_factor(rng, n, c["fac"]), "factor": c["fac"]} if c["kx"] == "factor"
+                      else gen_cov(rng, c["kx"], n, c["px"]))
         if c.get("cce"):
             meta["ce"]["compute_cov"] = True
         if c.get("ccx"):
@@ -674,6 +722,8 @@ def cell_name(c, op):
         extra += "/history"
     if c.get("x0arg"):
         extra += "/x0:%s,disp:%s" % (c["x0arg"], c["disp"])
+    if c.get("fac"):
+        extra += "/factor:" + c["fac"]
     return "%s/%s-%s/Ce:%s,Cx:%s%s/mean:%s/%s%s" % (op, c["model"], c["geom"], c["ke"], c["kx"], par, c["mean"], shape, extra)
 
 
@@ -774,6 +824,8 @@ def run_sample(cuqi, meta):
             else:
                 S = quiet(BP.sample_posterior, Ns, callback=lambda s, i: cb.append((s.copy(), i)), **sargs)
         X = np.array(S.samples, dtype=float)
+        if not np.all(np.isfinite(X)):
+            raise FloatingPointError("non-finite draws")
         out["samples"] = X
         out["flags"] = bool(X.shape == (n, Ns) and S.geometry is BP.model.domain_geometry
                             and [c for c in calls] == [("randn", (n,))] * Ns
@@ -1159,6 +1211,66 @@ WITNESS_NONSMOOTH = {"op": "optns", "prior": "Laplace", "lik": "Gaussian", "line
                      "A": [[1, 0], [0, 1], [1, 1]], "b": [1, 0.5, -1]}
 
 
+def case_ccov(cuqi, meta):
+    """Gaussian.compute_cov() itself: the matrix cached in .cov = inverse of the precision the log-density uses"""
+    g = meta["g"]
+    d = meta["dim"]
+    G = build_gaussian(cuqi, np.zeros(d), g)
+    ret = G.compute_cov()
+    C = np.array(G.cov, dtype=float)
+    if not np.all(np.isfinite(C)):
+        return Case(expr="false", meta=meta, cell="ccov/%s/%s%s" % (g["param"], g["kind"], "/" + g["factor"] if g.get("factor") else ""), kind="EXACT",
+                    impl_fail="compute_cov() cached non-finite values %s" % C.tolist(), signature=SIG_CCOV)
+    same = bool(np.array_equal(np.asarray(ret, dtype=float), C) and C.shape == (d, d))
+    exact = intended_cov(g, d)
+    fail = None
+    if not same:
+        fail = "compute_cov() did not return / cache a dense %dx%d matrix as .cov" % (d, d)
+    elif not all(close_v(r, e, tol=1e-8) for r, e in zip(C.tolist(), exact)):
+        fail = "compute_cov() cached %s but the covariance of the density (inverse of the precision logd uses) is %s" % (
+            np.round(C, 6).tolist(), [[round(float(v), 6) for v in r] for r in exact])
+    # the density's own quadratic form agrees with the exact covariance (ties `exact` to logd, not to the constructor argument)
+    if fail is None:
+        x = np.arange(1, d + 1) / 2.0
+        q_logd = -2.0 * float(np.ravel(G._logupdf(x))[0])
+        Pm = np.linalg.inv(np.array([[float(v) for v in r] for r in exact]))
+        if abs(q_logd - x @ Pm @ x) > 1e-8 * (1 + abs(q_logd)):
+            fail = "harness: the exact covariance is not the one of the log-density (%g vs %g)" % (q_logd, x @ Pm @ x)
+    expr = "check_compute_cov %s %s %s" % (cnat(d), c_gdesc(g, d, C.tolist()), cbool(same))
+    return Case(expr=expr, meta=meta, cell="ccov/%s/%s%s" % (g["param"], g["kind"], "/" + g["factor"] if g.get("factor") else ""),
+                kind="EXACT", impl_fail=fail, signature=SIG_CCOV if fail else "")
+
+
+def gen_ccov_metas(ctx):
+    rng = ctx.rng
+    out = []
+    for par in PARAMS:
+        for kind in ("scalar", "vec1", "vector", "diagm", "matrix"):
+            for d in (1, 2, 3, 4):
+                if (kind == "vector" and d == 1) or (kind == "matrix" and par in ("sqrtcov", "sqrtprec")):
+                    continue
+                out.append({"op": "ccov", "dim": d, "g": gen_cov(rng, kind, d, par)})
+    for par in ("sqrtprec", "sqrtcov"):
+        for fac in FACTORS:
+            for d in (2, 3, 4):
+                for _ in range(ctx.n(1, 4)):
+                    out.append({"op": "ccov", "dim": d, "g": {"param": par, "kind": "matrix", "val": gen_factor(rng, d, fac), "factor": fac}})
+    return out
+
+
+def curvature_ok(meta, m, n, which, mu_min=0.5):
+    """scipy stops at |grad|_inf <= 1e-5, so the returned point is within sqrt(n) 1e-5 / mu of the maximiser (mu = smallest
+    eigenvalue of the Hessian, C15_strongly_concave_distance): cells compared to 5e-5 need mu >= 0.5"""
+    A = np.array(meta["A"], dtype=float)
+    Pe = np.linalg.inv(np.array([[float(v) for v in r] for r in intended_cov(meta["ce"], m)]))
+    H = A.T @ Pe @ A
+    if which == "MAP":
+        H = H + np.linalg.inv(np.array([[float(v) for v in r] for r in intended_cov(meta["cx"], n)]))
+    elif m < n:
+        return np.min(np.linalg.eigvalsh(A @ A.T)) >= mu_min
+    return np.min(np.linalg.eigvalsh(H)) >= mu_min
+
+
 class _SolverSpy:
     """wraps cuqi.solver.minimize / L_BFGS_B by recording subclasses (the real optimisers still run)"""
     def __init__(self, cuqi):
@@ -1262,7 +1374,10 @@ def gen_ml_metas(ctx):
                 k += 1
                 form = forms[k % 4] if pe == "cov" else forms[k % 2]
                 c = dict(m=m, n=n, ke="vector" if ke == "constvec" else ("diagm" if ke == "sparsed" else ke), kx="scalar", pe=pe, px="cov", model=form, geom="default", mean="vec")
-                meta = instantiate(rng, c, op="ml")
+                for attempt in range(200):
+                    meta = instantiate(rng, c, op="ml")
+                    if curvature_ok(meta, m, n, "ML"):
+                        break
                 if ke == "constvec":
                     meta["ce"]["val"] = [meta["ce"]["val"][0]] * m
                     meta["constvec"] = True
@@ -1327,6 +1442,8 @@ def dispatch(cuqi, meta, fixed, cell=""):
         return case_optng(cuqi, meta)
     if op == "ml":
         return case_ml(cuqi, meta)
+    if op == "ccov":
+        return case_ccov(cuqi, meta)
     raise ValueError(op)
 
 
@@ -1399,7 +1516,10 @@ def gen_opt_metas(ctx):
                         continue
                     m, n = rng.choice([(3, 2), (3, 3), (4, 3)] if which == "ML" else [(2, 3), (3, 3), (3, 2)])
                     c = dict(m=m, n=n, ke=ke, kx=kx, pe="cov", px="cov", model="general" if force == "general" else "dense", geom="default", mean="vec")
-                    meta = instantiate(rng, c, op="opt")
+                    for attempt in range(200):
+                        meta = instantiate(rng, c, op="opt")
+                        if curvature_ok(meta, m, n, which):
+                            break
                     meta.update(which=which, force=force, m=m, n=n, x0=[dy(rng, -2, 2) for _ in range(n)] if rng.random() < 0.5 else None,
                                 x0_style=rng.choice(["ndarray", "list", "cuqiarray"]))
                     out.append(meta)
@@ -1481,6 +1601,8 @@ def run(ctx):
         cases.append(case_setup(cuqi, meta))
     for meta in gen_opt_metas(ctx):
         cases.append(case_opt(cuqi, meta))
+    for meta in gen_ccov_metas(ctx):
+        cases.append(case_ccov(cuqi, meta))
     for meta in gen_ml_metas(ctx):
         cases.append(case_ml(cuqi, meta))
     for meta in gen_optng_metas(ctx):
@@ -1511,7 +1633,7 @@ def classify(meta, detail):
         return classify_map(meta, len(A), len(A[0]))
     if op == "sample" and meta.get("geom") in NONID:
         return SIG_GEOM
-    return {"sample": SIG_SAMPLE, "route": SIG_ROUTE, "cascade": SIG_ROUTE, "setup": SIG_SETUP, "opt": SIG_OPT, "optng": SIG_OPT, "optns": SIG_NONSMOOTH, "ml": SIG_ML}.get(op, "C15")
+    return {"sample": SIG_SAMPLE, "route": SIG_ROUTE, "cascade": SIG_ROUTE, "setup": SIG_SETUP, "opt": SIG_OPT, "optng": SIG_OPT, "optns": SIG_NONSMOOTH, "ml": SIG_ML, "ccov": SIG_CCOV}.get(op, "C15")
 
 
 def search(ctx):
